@@ -158,7 +158,7 @@ fn type_of_key(key: &str, types: &[u8; 26]) -> Option<u8> {
 impl Prop for C06 {
     fn cases(&self, tier: Tier) -> u64 {
         match tier {
-            Tier::Quick => 60_000,
+            Tier::Quick => 180_000,
             Tier::Thorough => 3_000_000,
         }
     }
